@@ -54,13 +54,33 @@ def run_t2s(data, bs=4096, chunk=None):
         shutil.rmtree(d, ignore_errors=True)
 
 
+def materialise(aname, recipe):
+    if isinstance(recipe, (bytes, bytearray)):
+        return recipe
+    data = REF[aname][0]
+    tag = recipe[0]
+    if tag == "whole":
+        return codecs.compress(recipe[1], data, recipe[2]) + recipe[3]
+    if tag == "split":
+        codec, offs = recipe[1], recipe[2]
+        out, prev = b"", 0
+        for o in list(offs) + [len(data)]:
+            out += codecs.compress(codec, data[prev:o])
+            prev = o
+        return out
+    if tag == "plain":
+        return data
+    raise ValueError(tag)
+
+
 def evaluate(case):
-    kind, aname, what, data, bs, chunk, strict = case
+    kind, aname, what, recipe, bs, chunk, strict = case
+    data = materialise(aname, recipe)
     rc, sh, err, crashed, to = run_t2s(data, bs, chunk)
     ref = REF[aname][1][bs]
 
     def viol(fp, msg):
-        return dict(status="violation", fp=fp, what="archive %s, %s, -b %d%s\n%s" % (aname, what, bs, ", pipe chunks of %d" % chunk if chunk else "", msg),
+        return dict(status="violation", fp=fp, what="archive %s, %s, -b %d%s\n%s" % (aname, what, bs, ", pipe chunks of %d" % chunk if chunk else "", msg), dsha=hashlib.sha256(data).hexdigest(),
                     files={"input.bin": data if len(data) < 3000000 else data[:3000000], "case.json": json.dumps(dict(archive=aname, what=what, bs=bs, chunk=chunk))})
     codec = what.split(" ")[0]
     if to:
@@ -75,7 +95,7 @@ def evaluate(case):
     else:
         if rc == 0 and sh != ref:
             return viol("C15|damaged-input-accepted|%s|%s" % (codec, kind), "exit 0 with an image that differs from the intact archive's (silently accepted as a different archive)")
-    return dict(status="ok", rc=rc)
+    return dict(status="ok", rc=rc, dsha=hashlib.sha256(data).hexdigest())
 
 
 def main():
@@ -110,7 +130,7 @@ def main():
                 for level in (("default",) if (quick and not small) else ("min", "default", "max")):
                     if codec.startswith("zstd") and level == "max" and len(data) > 100000:
                         continue
-                    whole = codecs.compress(codec, data, level)
+                    whole = ("whole", codec, level, b"")
                     for bs in bss:
                         cases.append(("single", name, "%s level=%s single stream" % (codec, level), whole, bs, None, True))
                     if level != "default":
@@ -118,29 +138,34 @@ def main():
                     # member splits
                     if small:
                         offs = range(1, len(data), 1 if not quick else 37)
-                    else:
+                    elif len(data) < 100000:
                         bound = [o + d for o in range(512, len(data), 512) for d in (-1, 0, 1)]
                         offs = bound if not quick else bound[::max(1, len(bound) // 12)]
+                    else:
+                        # large archives: every 512-byte boundary +-1 in windows around the 128 KiB / 256 KiB buffer sizes, and every 32nd boundary elsewhere
+                        ks = set(range(1, len(data) // 512, 32))
+                        for centre in (131072 // 512, 262144 // 512, len(data) // 512 - 1):
+                            ks.update(k for k in range(centre - 3, centre + 4) if 0 < k < len(data) // 512 + 1)
+                        bound = [512 * k + d for k in sorted(ks) for d in (-1, 0, 1) if 0 < 512 * k + d < len(data)]
+                        offs = bound if not quick else bound[::max(1, len(bound) // 12)]
                     for o in offs:
-                        two = codecs.compress(codec, data[:o], level) + codecs.compress(codec, data[o:], level)
-                        cases.append(("split", name, "%s two members split at %d" % (codec, o), two, bss[0], None, True))
+                        cases.append(("split", name, "%s two members split at %d" % (codec, o), ("split", codec, (o,)), bss[0], None, True))
                     # three members
-                    t3 = codecs.compress(codec, data[:700]) + codecs.compress(codec, data[700:701]) + codecs.compress(codec, data[701:])
-                    cases.append(("split", name, "%s three members (700,1,rest)" % codec, t3, bss[0], None, True))
+                    cases.append(("split", name, "%s three members (700,1,rest)" % codec, ("split", codec, (700, 701)), bss[0], None, True))
                     # pipe chunkings
                     for ch in ((512, 65536) if quick else (1, 7, 512, 4095, 65536)):
-                        if ch == 1 and len(whole) > 30000:
+                        if ch == 1 and len(data) > 30000:
                             continue
                         cases.append(("chunked", name, "%s single stream" % codec, whole, bss[0], ch, True))
                     # trailing variants: not promised by the statement => error or the same image
-                    cases.append(("trailing", name, "%s + 1 KiB zeros" % codec, whole + bytes(1024), bss[0], None, False))
-                    cases.append(("trailing", name, "%s zero-padded to a 10 KiB multiple" % codec, whole + bytes((-len(whole)) % 10240), bss[0], None, False))
-                    cases.append(("trailing", name, "%s + garbage" % codec, whole + b"garbage!" * 8, bss[0], None, False))
+                    cases.append(("trailing", name, "%s + 1 KiB zeros" % codec, ("whole", codec, level, bytes(1024)), bss[0], None, False))
+                    cases.append(("trailing", name, "%s + 7 KiB zeros" % codec, ("whole", codec, level, bytes(7168)), bss[0], None, False))
+                    cases.append(("trailing", name, "%s + garbage" % codec, ("whole", codec, level, b"garbage!" * 8), bss[0], None, False))
             # the plain archive through the same pipe chunkings
             for ch in ((512,) if quick else (1, 7, 512, 65536)):
                 if ch == 1 and len(data) > 30000:
                     continue
-                cases.append(("chunked", name, "plain archive", data, bss[0], ch, True))
+                cases.append(("chunked", name, "plain archive", ("plain",), bss[0], ch, True))
         # oracle C: every proper prefix and every single-byte corruption of the compressed small archive
         a1 = arcs[0][1]
         for codec in cods:
@@ -167,7 +192,7 @@ def main():
             for c, r in zip(cases[off:off + chunk], pmap(evaluate, cases[off:off + chunk])):
                 n_eval += 1
                 kinds[c[0]] = kinds.get(c[0], 0) + 1
-                distinct.add(hashlib.sha256(c[3]).hexdigest())
+                distinct.add(r.get("dsha"))
                 if r["status"] == "violation":
                     cr.violation(r["fp"], r["what"], files=r["files"], replay_sh="python3 /verif/checks/C15.py --replay \"$PWD\"")
                 elif not c[6]:
@@ -205,7 +230,7 @@ def main():
                         name, x, len(exp), len(plain.out), " (a prefix of it)" if plain.out.startswith(exp) else ""), files={"out.bin": r.out[:2000000], "case.json": json.dumps(dict(archive=name, codec=x))})
                 distinct.add(hashlib.sha256(r.out).hexdigest())
         for i in (3, len(cases) // 2, len(cases) - 3):
-            cr.sample({"kind": cases[i][0], "archive": cases[i][1], "what": cases[i][2], "compressed_bytes": len(cases[i][3])})
+            cr.sample({"kind": cases[i][0], "archive": cases[i][1], "what": cases[i][2]})
         cr.coverage.update(evaluations=n_eval, distinct_nontrivial=len(distinct), cases_by_kind=kinds, damaged_input_outcomes=outcomes, sqfs2tar_compressed_outputs=nb,
                            codecs=cods, archives=[a[0] for a in arcs],
                            rule="Archives: 1.5 KiB, 40 KiB, and incompressible archives of 262144+d*512 bytes (d in -4..4, and twice that) so that the compressed stream crosses the 128 KiB file "
